@@ -458,8 +458,14 @@ Fixpoint lookup_flag (f : str) (t : list (str * bool)) : bool :=
   | (n, b) :: r => if str_eqb f n then b else lookup_flag f r
   end.
 
+Definition arith_name (o : aop) : str :=
+  match o with OAdd => s "+" | OSub => s "-" | OMul => s "*" | ODiv => s "/" end.
+Definition div_name (o : dop) : str :=
+  match o with OQuot => s "quot" | ORem => s "rem" | OMod => s "mod" end.
+
 (** is the function inlined at its call sites?  (regenerated from the ^:inline metadata) *)
-Definition inlined (o : uop) : bool := lookup_flag (un_name o) c20_core_inline_flags.
+Definition inlined_name (f : str) : bool := lookup_flag f c20_core_inline_flags.
+Definition inlined (o : uop) : bool := inlined_name (un_name o).
 
 Definition call_fn2 (f : res -> res -> res) (a b : res) : res :=
   bind2 a b (fun x y => f (Val x) (Val y)).
@@ -488,8 +494,10 @@ Fixpoint eval_inline (e : expr) : res :=
   | XLit v => Val v
   | XUn o a => if inlined o then un_body o (eval_inline a)
                else call_fn1 (un_body o) (eval_inline a)
-  | XArith o a b => call_fn2 (arith_body o) (eval_inline a) (eval_inline b)
-  | XDiv o a b => call_fn2 (div_body o) (eval_inline a) (eval_inline b)
+  | XArith o a b => if inlined_name (arith_name o) then arith_body o (eval_inline a) (eval_inline b)
+                    else call_fn2 (arith_body o) (eval_inline a) (eval_inline b)
+  | XDiv o a b => if inlined_name (div_name o) then div_body o (eval_inline a) (eval_inline b)
+                  else call_fn2 (div_body o) (eval_inline a) (eval_inline b)
   | XCmp o a b => call_fn2 (fun x y => call1 (cop_name o) [x; y]) (eval_inline a) (eval_inline b)
   end.
 
